@@ -167,6 +167,12 @@ fn sanitize(t: &FTree) -> FTree {
                     _ => a,
                 })
                 .collect();
+            // INDEX(range, row) alone is a whole row of the range: an array in a scalar position,
+            // which the xlsx importer marks with `@` (listed under C24)
+            let mut args: Vec<FTree> = args;
+            if name == "INDEX" && args.len() == 2 {
+                args.push(FTree::num(1));
+            }
             FTree::Func { name, args }
         }
         o => o,
